@@ -173,7 +173,13 @@ def reused_loader_load(ctx, loader, layout, main, dirpath, rng, poison):
 def compare(ctx, schema, corpus, text, case_extra, rng, dirpath, tag="",
             loader=None, xml=None):
     res = ctx.res
-    layout = cuts.cut_text(rng, text, styled=True)
+    special = rng.random() < 0.25
+    if special:
+        # the whole layout below a directory whose name holds characters
+        # that mean something in a URL: an escape, a fragment mark, a query
+        dirpath = os.path.join(dirpath, "d %41 #1 ?q=1 &")
+        res.count("layouts_below_url_special_directory")
+    layout = cuts.cut_text(rng, text, styled="noabs" if special else True)
     if layout is None:
         res.count("uncuttable")
         return
